@@ -156,4 +156,9 @@ example (log : List Change) :
 (regenerated; seeded change C04-E counts characters on one side only) -/
 theorem metadata_limits_are_byte_lengths : Generated.metadataLimitsAreByteLengths = true := by decide
 
+/-- restart-and-replay starts right after the snapshot because the log store holds nothing below it: a
+compaction removes every key below the snapshot index (regenerated; with a bounded compaction a restarted
+replica is handed the leftover entries again, on top of the snapshot) -/
+theorem compaction_removes_every_key_below : Generated.walCompactionRemovesEveryKeyBelow = true := by decide
+
 end Anndb.C04
